@@ -196,7 +196,7 @@ def _role_indexes(zf, var):
                                     pl2 = s2['rv']['op']['pl']
                                     if pl2['l'] == dst and any(p['k'] == 'deref' for p in pl2.get('p', [])):
                                         out[body.locals[s2['dst']['l']]['name']] = kt[1]
-                    if r and r[0] == 'range':
+                    if r and r[0] in ('range', 'from'):
                         # which user variable receives it
                         dst = t['dst']['l']
                         for bj, s2 in body.stmts():
@@ -204,7 +204,80 @@ def _role_indexes(zf, var):
                                 pl2 = s2['rv'].get('pl') or s2['rv'].get('op', {}).get('pl')
                                 if pl2 and zf.fd.base(pl2['l'])[0] == zf.fd.base(dst)[0] and pl2['l'] != 0:
                                     rng[body.locals[s2['dst']['l']]['name']] = (r[1], r[2])
+    # roles named by a helper: `let Roles { r1, r2, .. } = Roles::split(var, ..)` - the helper's struct fields carry the positions
+    from flow import local_target as _lt
+    eng = zf.za.eng
+    for bi, t in body.calls():
+        tgt = _lt(eng, t)
+        if tgt is None or tgt == body.path or tgt not in zf.za.prog.bodies:
+            continue
+        karg = None
+        for k, a in enumerate(t['args']):
+            if a['k'] in ('copy', 'move') and body.local_name(zf.fd.resolve_place(a['pl'])[0]) == var:
+                karg = k
+        if karg is None or t['dst'].get('p'):
+            continue
+        cb = zf.za.prog.bodies[tgt]
+        czf = zf.za.zf(tgt)
+        zf.za.summary(tgt)
+        pname = cb.local_name(karg + 1)
+        fmap, frng = _struct_roles(czf, pname)
+        if not fmap and not frng:
+            continue
+        dst = t['dst']['l']
+        for bj, s2 in body.stmts():
+            if s2['k'] != 'assign' or s2['dst'].get('p') or not body.locals[s2['dst']['l']].get('name'):
+                continue
+            rv2 = s2['rv']
+            pl2 = rv2.get('op', {}).get('pl') if rv2['k'] == 'use' else (rv2.get('pl') if rv2['k'] == 'ref' else None)
+            if not pl2 or pl2['l'] != dst:
+                continue
+            fl = [p for p in pl2.get('p', []) if p['k'] == 'field']
+            if len(fl) != 1:
+                continue
+            nm = body.locals[s2['dst']['l']]['name']
+            if fl[0]['n'] in fmap:
+                out[nm] = fmap[fl[0]['n']]
+            elif fl[0]['n'] in frng:
+                rng[nm] = frng[fl[0]['n']]
     return out, rng
+
+
+def _struct_roles(czf, pname):
+    """for a helper that returns a struct whose fields are `param[k]` / `&param[a..b]`: {field: k}, {field: (a, b)}"""
+    body = czf.body
+    fmap, frng = {}, {}
+    for bi, s in body.stmts():
+        if s['k'] == 'assign' and s['dst']['l'] == 0 and not s['dst'].get('p') and s['rv']['k'] == 'agg' and s['rv'].get('ak') == 'adt':
+            for f, o in zip(s['rv']['fields'], s['rv']['ops']):
+                if o['k'] not in ('copy', 'move'):
+                    continue
+                l = o['pl']['l']
+                for _ in range(4):
+                    d = czf.single_def(l)
+                    if d is None:
+                        break
+                    if d[0] == 'assign' and d[2]['rv']['k'] == 'use' and d[2]['rv']['op']['k'] in ('copy', 'move'):
+                        pl = d[2]['rv']['op']['pl']
+                        ix = [p for p in pl.get('p', []) if p['k'] == 'index']
+                        if ix and body.local_name(czf.fd.resolve_place({'l': pl['l']})[0]) == pname:
+                            t = czf.term_local(ix[0]['l'])
+                            if t is not None and t[0] is None:
+                                fmap[f] = t[1]
+                            break
+                        l = pl['l']
+                        continue
+                    if d[0] == 'assign' and d[2]['rv']['k'] == 'ref':
+                        l = d[2]['rv']['pl']['l']
+                        continue
+                    if d[0] == 'call' and (d[2].get('callee') or '') == 'std::ops::Index::index' and len(d[2]['args']) == 2 and d[2]['args'][0]['k'] in ('copy', 'move'):
+                        if body.local_name(czf.fd.resolve_place(d[2]['args'][0]['pl'])[0]) == pname:
+                            r = czf._range_arg(d[2]['args'][1])
+                            if r and r[0] in ('range', 'from'):
+                                frng[f] = (r[1], r[2])
+                        break
+                    break
+    return fmap, frng
 
 
 def rule_role_projection(ctx, cfg='prod-all', rule='RF-G2'):
@@ -272,6 +345,20 @@ def rule_response_masks(ctx, cfg='prod-all', rule='RF-G4'):
                             nm = b.local_name(r)
                             if nm in idx:
                                 mask = nm
+                            else:
+                                # a role bound by destructuring (`let Roles { e_tilde, .. } = ..`): follow plain copies to the named local
+                                l2 = a['pl']['l']
+                                for _k in range(4):
+                                    if b.local_name(l2) in idx:
+                                        mask = b.local_name(l2)
+                                        break
+                                    d2 = zf.single_def(l2)
+                                    if d2 and d2[0] == 'assign' and d2[2]['rv']['k'] in ('use', 'ref') and not d2[2]['dst'].get('p'):
+                                        src = d2[2]['rv'].get('pl') or d2[2]['rv'].get('op', {}).get('pl')
+                                        if src and not [q for q in src.get('p', []) if q['k'] not in ('deref',)]:
+                                            l2 = src['l']
+                                            continue
+                                    break
                     break
                 if d and d[0] == 'assign' and d[2]['rv']['k'] == 'use' and d[2]['rv']['op']['k'] in ('copy', 'move'):
                     l = d[2]['rv']['op']['pl']['l']
